@@ -27,9 +27,22 @@ Judge(j) ==
                           /\ CdataUnrequested(N, e.lc, e.root, e.toks, "https://www.w3.org/1999/xhtml", {<<e.cdata[q][1], e.cdata[q][2]>> : q \in 1..Len(e.cdata)}) # {})
                => Report(j, <<"a CDATA section in an element that was not asked to get one",
                               CdataUnrequested(N, e.lc, e.root, e.toks, XhtmlNs, {<<e.cdata[q][1], e.cdata[q][2]>> : q \in 1..Len(e.cdata)})>>)
+\* the *_with_normalizer pair under NormF: it must not panic either and its Write variant agrees with the string one
+\* (C19 / the same clause as above); that the normalised output follows the rules for NormForest(N) and that a normaliser
+\* that changes nothing changes no byte is behaviour beyond the listed property (prop "X-NORM": a note, never a violation)
+ReportX(j, detail) ==
+    PrintT("REJECT " \o ToJson([i |-> j, prop |-> "X-NORM", op |-> "html", a |-> <<Rec[j].root>>, res |-> Rec[j].nres, detail |-> detail, known |-> ""]))
+JudgeNorm(j) ==
+    LET e == Rec[j]  N == e.st.n  NN == NormForest(N) IN
+    /\ e.nres \notin {"ok", "err"} => Report(j, <<"panic (with a normaliser)">>)
+    /\ ~e.nwsame => Report(j, <<"Write entry point differs from the string (with a normaliser)">>)
+    /\ (NormJudgeable(N, e.root) /\ e.res = "ok" /\ HtmlBad(N, e.lc, e.root, e.toks) = {}) =>
+         /\ e.nres # "ok" => ReportX(j, <<"serialises without a normaliser but not with one", e.nres>>)
+         /\ (e.nres = "ok" /\ NN = N /\ e.ntext # e.text) => ReportX(j, <<"a normaliser that changes nothing changed the output">>)
+         /\ (e.nres = "ok" /\ HtmlBad(NN, e.lc, e.root, e.ntoks) # {}) => ReportX(j, <<"rules for the normalised tree", HtmlBad(NN, e.lc, e.root, e.ntoks)>>)
 Init == i = 0
 Next == i < Len(Rec) /\ i' = i + 1
 Spec == Init /\ [][Next]_i
-Judged == i = 0 \/ Judge(i)
+Judged == i = 0 \/ (Judge(i) /\ (StructDefect(Rec[i].st.n) # "none" \/ JudgeNorm(i)))
 Consumed == TLCGet("stats").diameter = Len(Rec) + 1 \/ PrintT(<<"NOTCONSUMED", TLCGet("stats").diameter, Len(Rec)>>)
 =============================================================================
